@@ -2955,10 +2955,20 @@ impl Interpreter {
         // guarded only while it runs; when it yields, finishes or throws they stay
         // reachable through the generator object.  Drop every guard pushed during this
         // resumption, otherwise each resumed generator leaves a root behind.
+        if gen_state.borrow().status == GeneratorStatus::Running {
+            return Err(JsError::type_error("Generator is already running"));
+        }
         // Resuming a generator runs its body in a nested VM on the native stack
         self.enter_native_reentry()?;
         let env_guard_depth = self.env_guards.len();
+        let was_completed = gen_state.borrow().status == GeneratorStatus::Completed;
+        if !was_completed {
+            gen_state.borrow_mut().status = GeneratorStatus::Running;
+        }
         let result = self.resume_bytecode_generator_inner(gen_state);
+        if gen_state.borrow().status == GeneratorStatus::Running {
+            gen_state.borrow_mut().status = GeneratorStatus::Suspended;
+        }
         self.env_guards.truncate(env_guard_depth);
         self.native_reentry_depth -= 1;
         result
